@@ -89,6 +89,13 @@ def build_lean(prop, clean=False):
     return {"ok": rc == 0, "log": out[-4000:], "secs": round(secs, 1), "targets": targets}
 
 
+def prop_namespace(prop):
+    p = os.path.join(LEAN, "Dia", "Props", prop + ".lean")
+    body = lean_strip_comments(open(p, encoding="utf-8").read())
+    m = re.search(r"^namespace\s+(\S+)", body, flags=re.M)
+    return m.group(1) if m else "Dia"
+
+
 def audit(prop):
     """#print axioms for every property theorem; source scan. Returns dict with per-theorem axioms."""
     thms = prop_theorems(prop)
@@ -97,11 +104,12 @@ def audit(prop):
         res["bad"].append("no property theorem found for " + prop)
         return res
     wd = workdir(prop)
+    ns = prop_namespace(prop)
     ap = os.path.join(wd, "audit.lean")
     with open(ap, "w") as f:
         f.write("import Dia.Props.%s\n" % prop)
         for t in thms:
-            f.write("#print axioms Dia.%s\n" % t)
+            f.write("#print axioms %s.%s\n" % (ns, t))
     rc, out, _ = sh(["lake", "env", "lean", ap], cwd=LEAN, timeout=1800)
     if rc != 0:
         res["bad"].append("audit file does not compile: " + out[-800:])
@@ -109,10 +117,10 @@ def audit(prop):
     # "'Dia.x' depends on axioms: [a, b]"  (may wrap over lines)  /  "'Dia.x' does not depend on any axioms"
     flat = re.sub(r"\s+", " ", out)
     for t in thms:
-        m = re.search(r"'Dia\.%s' depends on axioms: \[([^\]]*)\]" % re.escape(t), flat)
+        m = re.search(r"'%s\.%s' depends on axioms: \[([^\]]*)\]" % (re.escape(ns), re.escape(t)), flat)
         if m:
             ax = [a.strip() for a in m.group(1).split(",") if a.strip()]
-        elif re.search(r"'Dia\.%s' does not depend on any axioms" % re.escape(t), flat):
+        elif re.search(r"'%s\.%s' does not depend on any axioms" % (re.escape(ns), re.escape(t)), flat):
             ax = []
         else:
             res["bad"].append("no axiom report for " + t)
@@ -262,8 +270,10 @@ def split_cases(cases_path, n, wd):
     return chunks, lines, len(pre)
 
 
-def run_pair(cases_path, wd, nproc=1):
-    """returns (lines, impl_answers, model_answers, incidents); answers aligned with lines"""
+def run_pair(cases_path, wd, nproc=1, model_input=None):
+    """returns (lines, impl_answers, model_answers, incidents); answers aligned with lines.
+    model_input(line, impl_answer) -> line for the model: used where the model *replays what was observed* (client
+    trace conformance) instead of predicting it from the input alone."""
     chunks, lines, npre = split_cases(cases_path, nproc, wd)
     impl = [None] * len(lines)
     model = [None] * len(lines)
@@ -273,7 +283,20 @@ def run_pair(cases_path, wd, nproc=1):
         p, s, e = ch
         io, mo = p + ".impl", p + ".model"
         inc = run_impl(p, io)
-        run_model(p, mo)
+        if model_input is None:
+            run_model(p, mo)
+        else:
+            with open(p) as f:
+                cl = f.read().split("\n")
+            with open(io) as f:
+                al = f.read().split("\n")
+            mp = p + ".minput"
+            with open(mp, "w") as f:
+                for k, l in enumerate(cl):
+                    if k == len(cl) - 1 and l == "":
+                        break
+                    f.write(model_input(l, al[k] if k < len(al) else "missing") + "\n")
+            run_model(mp, mo)
         return ch, io, mo, inc
 
     with ThreadPoolExecutor(max_workers=max(1, nproc)) as ex:
